@@ -17,7 +17,7 @@ extern "C" void h_prunerange()
 {
     Chainstate& cs = cs_store.obj(); ChainstateManager& cm = cm_store.obj();
     new (&cs.m_chain) CChain();
-    void** slot_blockman = ref_slot_after(cs, cs.m_last_script_check_reason_logged);
+    void** slot_blockman = REF_SLOT_AFTER(cs, Chainstate, m_last_script_check_reason_logged);
     slot_blockman[0] = &cm.m_blockman; slot_blockman[1] = &cm;
     VASSERT(&cs.m_chainman == &cm && &cs.m_blockman == &cm.m_blockman, "phantom reference members wired");
 
